@@ -311,7 +311,10 @@ def main():
                  "and never written at run time. When a rule that recognises code by its shape fails, the check first tries "
                  "to prove every function of the tree equal to the reference tree (E8, DESIGN section 9); only if that "
                  "fails is the violation reported. bvstatic/data/*.json are references frozen from the confirmed tree by "
-                 "tools/freeze_*.py and are never written by a check.",
+                 "tools/freeze_*.py and are never written by a check. Besides its own rules every check runs four generic "
+                 "clauses on the files / functions of its property (DESIGN section 10): SIG (parameter defaults), MEMO (no "
+                 "untabled cache or registry), PIN and ANCHOR (functions the property depends on, and every function its rules "
+                 "read, are proven equal to their reference version by E8).",
     }
     with open(os.path.join(HERE, "MANIFEST.json"), "w") as f:
         json.dump(man, f, indent=1, ensure_ascii=False)
